@@ -32,6 +32,28 @@ def strategy(tier):
     return rb.rebuild_case(tier, prepopulate=False, partial_decoys=True)
 
 
+GRID_DESC = {
+    "quick": "one v1 torrent with ten same-named, same-sized 3-byte files (d00..d09/index.txt) and six empty p0x/__init__.py, all sharing one "
+             "piece, intact copy under the same directory names: the candidate search must not explode combinatorially",
+    "thorough": "same",
+}
+
+
+def grid(tier):
+    files, places = [], []
+    for i in range(10):
+        files.append({"path": ["d%02d" % i, "index.txt"], "size": 3, "mode": "nz", "seed": 900 + i})
+        places.append({"place": {"dir": 0, "sub": ["d%02d" % i]}, "decoy": None, "pre": "none"})
+    for i in range(6):
+        files.append({"path": ["p%02d" % i, "__init__.py"], "size": 0, "mode": "nz", "seed": 0})
+        places.append({"place": {"dir": 0, "sub": ["p%02d" % i]}, "decoy": None, "pre": "none"})
+    files.append({"path": ["z-last.bin"], "size": 20000, "mode": "nz", "seed": 77})
+    places.append({"place": {"dir": 0, "sub": []}, "decoy": None, "pre": "none"})
+    tree = {"name": "pkg-t0", "single": False, "files": files}
+    return [{"torrents": [{"tree": tree, "P": 16384, "creator": "TorrentFile", "files": places}], "nsearch": 1, "unrelated": [],
+             "order": 0, "metafiles_as_dir": False, "dest_via_symlink": False, "dest_spelling": "abs"}]
+
+
 def classes_of(case):
     cls = set()
     for tor in case["torrents"]:
